@@ -201,6 +201,7 @@ func runC14Faults(r *Run) {
 			q.SetQuestion(qname, dns.TypeA)
 			q.Id = uint16(r.Rng.Intn(65536))
 			qCtx := query_context.NewContext(q)
+			_, priorStr := prior14(r, q, qCtx)
 			var state []string
 			for _, s := range srvs {
 				st := behav[s.id] + "+" + time.Duration(s.delayNs.Load()).String()
@@ -212,7 +213,7 @@ func runC14Faults(r *Run) {
 			step := fmt.Sprintf("%s[servers %s; entries %s]", phase, strings.Join(state, " "), subsetStr)
 			desc := map[string]any{"config": conf, "built_via": via, "entry_leads_to_server": strings.Join(targets, ","), "tag_subset_entries": subsetStr,
 				"session_before_this_query(phase[server:behaviour+delay | fault; entries in use] -> result)": append([]string(nil), history...),
-				"this_query": step, "qname": qname,
+				"this_query": step, "qname": qname, "response_already_in_the_context_before_the_call(rcode:origin)": priorStr,
 				"server_addresses": fmt.Sprintf("1: tcp %s socks5 %s; 2: tcp %s socks5 %s; 3: tcp %s socks5 %s", srvs[0].tcpAddr, srvs[0].sockAddr, srvs[1].tcpAddr, srvs[1].sockAddr, srvs[2].tcpAddr, srvs[2].sockAddr)}
 			meter := startStallMeter()
 			const budget = 2500 * time.Millisecond
